@@ -159,22 +159,27 @@ open Req.Retry
 theorem consume_idem (s : FileSrc) : s.consume.consume = s.consume := by
   cases s <;> rfl
 
-def NoStream (f : FileUp) : Prop := (∀ c b, f.src ≠ .stream c b) ∧ (∀ c b, f.src ≠ .closer c b)
+def NoStream (f : FileUp) : Prop :=
+  (∀ c b, f.src ≠ .stream c b) ∧ (∀ c b, f.src ≠ .closer c b) ∧ (∀ c b, f.src ≠ .shared c false b)
 
 theorem filePart_consume (c : ClientCfg) (f : FileUp) (h : NoStream f) :
     filePart R c { f with src := f.src.consume } = filePart R c f := by
   obtain ⟨p, n, ct, src⟩ := f
   cases src with
   | stream cc b => exact absurd rfl (h.1 cc b)
-  | closer cc b => exact absurd rfl (h.2 cc b)
+  | closer cc b => exact absurd rfl (h.2.1 cc b)
   | bytes cc => rfl
   | path cc => rfl
   | seeker cc b => simp [filePart, fileContent, FileSrc.consume, R, Variant.repaired]
+  | shared cc sk b =>
+    cases sk with
+    | false => exact absurd rfl (h.2.2 cc b)
+    | true => simp [filePart, fileContent, FileSrc.consume]
 
 theorem not_closed_of_noStream (f : FileUp) (h : NoStream f) : f.closed = false := by
   obtain ⟨p, n, ct, src⟩ := f
   cases src with
-  | closer cc b => exact absurd rfl (h.2 cc b)
+  | closer cc b => exact absurd rfl (h.2.1 cc b)
   | _ => rfl
 
 theorem fileParts_eq_map (v : Variant) (c : ClientCfg) (files : List FileUp) (h : ∀ f ∈ files, NoStream f) :
@@ -189,21 +194,29 @@ theorem noStream_consume (f : FileUp) (h : NoStream f) : NoStream { f with src :
   obtain ⟨p, n, ct, src⟩ := f
   cases src with
   | stream cc b => exact absurd rfl (h.1 cc b)
-  | closer cc b => exact absurd rfl (h.2 cc b)
-  | bytes cc => constructor <;> intro x y hh <;> simp [FileSrc.consume] at hh
-  | path cc => constructor <;> intro x y hh <;> simp [FileSrc.consume] at hh
-  | seeker cc b => constructor <;> intro x y hh <;> simp [FileSrc.consume] at hh
+  | closer cc b => exact absurd rfl (h.2.1 cc b)
+  | bytes cc => refine ⟨?_, ?_, ?_⟩ <;> intro x y hh <;> simp [FileSrc.consume] at hh
+  | path cc => refine ⟨?_, ?_, ?_⟩ <;> intro x y hh <;> simp [FileSrc.consume] at hh
+  | seeker cc b => refine ⟨?_, ?_, ?_⟩ <;> intro x y hh <;> simp [FileSrc.consume] at hh
+  | shared cc sk b =>
+    cases sk with
+    | false => exact absurd rfl (h.2.2 cc b)
+    | true => refine ⟨?_, ?_, ?_⟩ <;> intro x y hh <;> simp [FileSrc.consume] at hh
 
-theorem noStream_of_replayable (st : ReqState) (h : unreplayable R st = false) :
+theorem noStream_of_replayable (st : ReqState) (h : unreplayable R st = false) (hc : st.contract = true) :
     ∀ f ∈ st.files, NoStream f := by
   intro f hf
   simp only [unreplayable, R, Variant.repaired, Bool.true_and, Bool.or_eq_false_iff] at h
   have h2 := h.2
   rw [List.any_eq_false] at h2
   have h3 := h2 f hf
-  constructor
+  have h4 : f.contract = true := by
+    simp only [ReqState.contract, List.all_eq_true] at hc
+    exact hc f hf
+  refine ⟨?_, ?_, ?_⟩
   · intro c b hsrc; simp [hsrc] at h3
   · intro c b hsrc; simp [hsrc] at h3
+  · intro c b hsrc; simp [FileUp.contract, hsrc] at h4
 
 theorem notReader_of_replayable (st : ReqState) (h : unreplayable R st = false) :
     ∀ b c, st.body ≠ .reader b c := by
@@ -211,14 +224,14 @@ theorem notReader_of_replayable (st : ReqState) (h : unreplayable R st = false) 
   simp [unreplayable, hb] at h
 
 theorem parseBody_fix (c : ClientCfg) (hx : c.isXML c.jsonCT = false) (j k : Nat) (st : ReqState) (h0 : Multi)
-    (hh : st.headers = mergeHeaders c.headers h0) (hr : unreplayable R st = false) :
+    (hh : st.headers = mergeHeaders c.headers h0) (hr : unreplayable R st = false) (hc : st.contract = true) :
     mergeHeaders c.headers (parseBody R c j st).1.headers = (parseBody R c j st).1.headers ∧
     parseBody R c (k + 1) (parseBody R c j st).1 = parseBody R c j st ∧
     (parseBody R c j st).1.method = st.method ∧
     ((parseBody R c j st).1.urlHead = st.urlHead ∧ (parseBody R c j st).1.path = st.path ∧
       (parseBody R c j st).1.rawQuery = st.rawQuery ∧ (parseBody R c j st).1.pathParams = st.pathParams) ∧
     (parseBody R c j st).1.query = st.query ∧ (parseBody R c j st).1.cookies = st.cookies := by
-  have hfiles := noStream_of_replayable st hr
+  have hfiles := noStream_of_replayable st hr hc
   have hbody := notReader_of_replayable st hr
   have hk : (k + 1 == 0) = false := by simp
   have hmi : mergeHeaders c.headers st.headers = st.headers := by rw [hh, merge_idem]
@@ -227,7 +240,8 @@ theorem parseBody_fix (c : ClientCfg) (hx : c.isXML c.jsonCT = false) (j k : Nat
   clear hh
   unfold parseBody
   by_cases hp : payloadForbid c st.method = true
-  · simp [hp, hmi]
+  · have hfb : st.body.forbidden.forbidden = st.body.forbidden := by cases st.body <;> rfl
+    simp [hp, hmi, hfb]
   · simp only [hp, Bool.false_eq_true, ↓reduceIte, R, Variant.repaired, Bool.not_true, Bool.false_or, hk,
       Bool.and_false]
     generalize hform : (if (nonEmpty c.form && j == 0) = true then addAll st.form c.form else st.form) = form
@@ -298,11 +312,13 @@ theorem pre_fix (c : ClientCfg) (k : Nat) (s : ReqState)
 request.  (`hx`: the JSON content type the middleware itself stores is not an XML type — the
 law `util.IsXMLType` is instantiated with.) -/
 theorem mw_fix (c : ClientCfg) (hx : c.isXML c.jsonCT = false) (j k : Nat) (st : ReqState)
-    (hr : unreplayable R st = false) :
+    (hr : unreplayable R st = false) (hc : st.contract = true) :
     mw R c (k + 1) (mw R c j st).1 = mw R c j st := by
   have hun : unreplayable R (pre c j st) = false := by
     simpa [unreplayable, pre] using hr
-  obtain ⟨h1, h2, h3, ⟨h4a, h4b, h4c, h4d⟩, h5, h6⟩ := parseBody_fix c hx j k (pre c j st) st.headers rfl hun
+  have hcn : (pre c j st).contract = true := by
+    simpa [ReqState.contract, pre] using hc
+  obtain ⟨h1, h2, h3, ⟨h4a, h4b, h4c, h4d⟩, h5, h6⟩ := parseBody_fix c hx j k (pre c j st) st.headers rfl hun hcn
   have hpre : pre c (k + 1) (parseBody R c j (pre c j st)).1 = (parseBody R c j (pre c j st)).1 :=
     pre_fix c k _ h1
   have hurl : urlOf c (parseBody R c j (pre c j st)).1 = urlOf c st := by
